@@ -521,7 +521,7 @@ class _AsyncNodeWrapper:
 
         # Block until output is ready
         jax.tree_util.tree_map(lambda x: x.block_until_ready() if hasattr(x, "block_until_ready") else True, output)
-        return self.async_step(step_state)
+        return new_step_state, output
 
     def async_step(self, step_state: base.StepState) -> Tuple[base.StepState, base.Output]:
         """Async step function that is called when running asynchronously.
